@@ -333,8 +333,172 @@ def known_functions():
         import json
         path = os.path.join(os.path.dirname(os.path.abspath(__file__)), 'known_functions.json')
         with open(path) as fh:
-            _KNOWN = {k: set(v) for k, v in json.load(fh).items()}
+            data = json.load(fh)
+        _KNOWN = {k: set(v) for k, v in data['functions'].items()}
+        _KNOWN_EXTRA.update({'digests': data.get('digests', {}), 'attrs': data.get('attrs', {})})
     return _KNOWN
+
+
+_KNOWN_EXTRA = {}
+
+
+def fn_digest(node):
+    """shape of a function without its name, docstring and positions (only used to recognise a function that was renamed or moved)"""
+    import hashlib
+    body = [b for b in node.body if not (isinstance(b, ast.Expr) and isinstance(b.value, ast.Constant) and isinstance(b.value.value, str))]
+    text = ast.dump(node.args) + '|' + '|'.join(ast.dump(b) for b in body)
+    text = text.replace(repr(node.name), "'<own name>'")
+    return hashlib.md5(text.encode('utf8')).hexdigest()[:16]
+
+
+def _toplevel(body):
+    for n in body:
+        if isinstance(n, (ast.If, ast.Try)):
+            for fld in ('body', 'orelse', 'finalbody'):
+                yield from _toplevel(getattr(n, fld, []) or [])
+            for h in getattr(n, 'handlers', []):
+                yield from _toplevel(h.body)
+        else:
+            yield n
+
+
+def function_table(tree):
+    """{qualname: node} for module-level functions, methods and the functions nested directly in them"""
+    out = {}
+
+    def nested(prefix, fn):
+        for st in _toplevel(fn.body):
+            if isinstance(st, ast.FunctionDef):
+                out[prefix + '.' + st.name] = st
+    for n in _toplevel(tree.body):
+        if isinstance(n, ast.FunctionDef):
+            out[n.name] = n
+            nested(n.name, n)
+        elif isinstance(n, ast.ClassDef):
+            for m in n.body:
+                if isinstance(m, ast.FunctionDef):
+                    out[n.name + '.' + m.name] = m
+                    nested(n.name + '.' + m.name, m)
+    return out
+
+
+def attr_signatures(tree):
+    """{class: {attribute of the receiver: 'method:L method:S ...'}}: where each field of an object is read and written by its own methods"""
+    out = {}
+    for n in _toplevel(tree.body):
+        if not isinstance(n, ast.ClassDef):
+            continue
+        sig = {}
+        for m in n.body:
+            if isinstance(m, ast.FunctionDef) and m.args.args:
+                recv = m.args.args[0].arg
+                for x in ast.walk(m):
+                    if isinstance(x, ast.Attribute) and isinstance(x.value, ast.Name) and x.value.id == recv:
+                        sig.setdefault(x.attr, []).append('%s:%s' % (m.name, 'S' if isinstance(x.ctx, (ast.Store, ast.Del)) else 'L'))
+        out[n.name] = {a: ' '.join(sorted(v)) for a, v in sig.items()}
+    return out
+
+
+def undo_renames(trees):
+    """trees: {relpath: ast.Module}.  A function of the table of known functions that is gone, while exactly one function that is not in the table
+    has the very same shape, was renamed (same module) or moved (other module): it gets its known name and place back, and every mention of the
+    new name in the package follows.  The same for a field of a class whose uses in the methods of the class are exactly those of a vanished
+    known field.  Returns the number of names restored."""
+    known_functions()
+    digests, attrs = _KNOWN_EXTRA['digests'], _KNOWN_EXTRA['attrs']
+    tables = {rel: function_table(t) for rel, t in trees.items()}
+    all_known_names = {q.rsplit('.', 1)[-1] for rel in digests for q in digests[rel]}
+    vanished = [(rel, q) for rel in digests if rel in trees for q in digests[rel] if q not in tables[rel]]
+    news = [(rel, q, n) for rel in tables for q, n in tables[rel].items() if q not in digests.get(rel, {}) and rel in digests]
+    renames = {}       # new simple name -> known simple name
+    moves = []
+    for (rel, q) in vanished:
+        d = digests[rel][q]
+        cands = [(r2, q2, n) for (r2, q2, n) in news if fn_digest(n) == d]
+        if len(cands) != 1:
+            continue
+        r2, q2, node = cands[0]
+        new_simple, old_simple = q2.rsplit('.', 1)[-1], q.rsplit('.', 1)[-1]
+        if new_simple in all_known_names and new_simple != old_simple:
+            continue
+        if new_simple != old_simple:
+            renames[new_simple] = old_simple
+        owner_old, owner_new = q.rsplit('.', 1)[0] if '.' in q else '', q2.rsplit('.', 1)[0] if '.' in q2 else ''
+        if r2 != rel or owner_old != owner_new:
+            moves.append((rel, q, r2, q2, node))
+    n_restored = len(renames) + len(moves)
+    # fields
+    field_renames = {}
+    for rel, t in trees.items():
+        now = attr_signatures(t)
+        for cls, known_sig in attrs.get(rel, {}).items():
+            cur = now.get(cls)
+            if cur is None:
+                continue
+            gone = {a: s_ for a, s_ in known_sig.items() if a not in cur}
+            fresh = {a: s_ for a, s_ in cur.items() if a not in known_sig}
+            for a, s_ in gone.items():
+                m = [b for b, s2 in fresh.items() if s2 == s_]
+                if len(m) == 1 and sum(1 for s2 in gone.values() if s2 == s_) == 1:
+                    field_renames[m[0]] = a
+    n_restored += len(field_renames)
+    if not n_restored:
+        return 0
+    for (rel, q, r2, q2, node) in moves:
+        # take the definition out of where it is now ...
+        def drop(body):
+            for i, st in enumerate(body):
+                if st is node:
+                    del body[i]
+                    return True
+                for fld in ('body', 'orelse', 'finalbody'):
+                    sub = getattr(st, fld, None)
+                    if isinstance(sub, list) and not isinstance(st, (ast.FunctionDef,)) and drop(sub):
+                        return True
+                if isinstance(st, ast.FunctionDef) and drop(st.body):
+                    return True
+            return False
+        drop(trees[r2].body)
+        # ... and put it back where it is known
+        owner = q.rsplit('.', 1)[0] if '.' in q else ''
+        if not owner:
+            trees[rel].body.append(node)
+        else:
+            host = tables[rel].get(owner)
+            cls = next((c for c in _toplevel(trees[rel].body) if isinstance(c, ast.ClassDef) and c.name == owner), None)
+            if host is not None:
+                k = 1 if host.body and isinstance(host.body[0], ast.Expr) and isinstance(host.body[0].value, ast.Constant) else 0
+                host.body.insert(k, node)
+            elif cls is not None:
+                cls.body.append(node)
+        new_simple = q2.rsplit('.', 1)[-1]
+        old_simple = q.rsplit('.', 1)[-1]
+        # in the module that owns it again, `othermodule.name(...)` and the imported name are the plain name
+        for x in ast.walk(trees[rel]):
+            for fld, val in ast.iter_fields(x):
+                if isinstance(val, ast.Attribute) and val.attr in (new_simple, old_simple) and isinstance(val.value, ast.Name) and r2 != rel:
+                    setattr(x, fld, ast.copy_location(ast.Name(id=old_simple, ctx=val.ctx), val))
+                elif isinstance(val, list):
+                    for i, y in enumerate(val):
+                        if isinstance(y, ast.Attribute) and y.attr in (new_simple, old_simple) and isinstance(y.value, ast.Name) and r2 != rel:
+                            val[i] = ast.copy_location(ast.Name(id=old_simple, ctx=y.ctx), y)
+        for st in list(ast.walk(trees[rel])):
+            if isinstance(st, ast.ImportFrom):
+                st.names = [a for a in st.names if a.name not in (new_simple, old_simple)] or [ast.alias(name='__nothing__', asname=None)]
+    for t in trees.values():
+        for x in ast.walk(t):
+            if isinstance(x, ast.FunctionDef) and x.name in renames:
+                x.name = renames[x.name]
+            elif isinstance(x, ast.Name) and x.id in renames:
+                x.id = renames[x.id]
+            elif isinstance(x, ast.Attribute):
+                if x.attr in renames:
+                    x.attr = renames[x.attr]
+                elif x.attr in field_renames:
+                    x.attr = field_renames[x.attr]
+            elif isinstance(x, ast.alias) and x.name in renames:
+                x.name = renames[x.name]
+    return n_restored
 
 
 class _HoistCalls(ast.NodeTransformer):
@@ -1016,11 +1180,11 @@ def _propagate_temporaries(fn):
 
 
 class Module:
-    def __init__(self, name, relpath, src, reuse=None):
+    def __init__(self, name, relpath, src, reuse=None, tree=None):
         self.name = name
         self.relpath = relpath
         self.src = src
-        if reuse is not None and reuse.src == src:
+        if reuse is not None and reuse.src == src and tree is None:
             # unchanged file of a variant: share the (read-only) tree
             self.lines = reuse.lines
             self.tree = reuse.tree
@@ -1030,7 +1194,7 @@ class Module:
             self.assigns = {}
             return
         self.lines = src.splitlines()
-        self.tree = ast.fix_missing_locations(_Desugar().visit(ast.parse(src, filename=relpath)))
+        self.tree = ast.fix_missing_locations(_Desugar().visit(tree if tree is not None else ast.parse(src, filename=relpath)))
         known = known_functions().get(relpath)
         if known is not None and _InlineNewHelpers(self.tree, known).run():
             ast.fix_missing_locations(self.tree)
@@ -1088,6 +1252,23 @@ class ClassInfo:
         return '<Class %s>' % self.qualname
 
 
+def _quick_has_unknown_or_vanished(trees):
+    """is there, in the given modules, a known function or field missing?  (cheap test that keeps the restoring pass away from ordinary trees)"""
+    known_functions()
+    digests, attrs = _KNOWN_EXTRA['digests'], _KNOWN_EXTRA['attrs']
+    for rel, t in trees.items():
+        if rel in digests:
+            tab = function_table(t)
+            if any(q not in tab for q in digests[rel]):
+                return True
+        if rel in attrs:
+            now = attr_signatures(t)
+            for cls, sig in attrs[rel].items():
+                if cls in now and any(a not in now[cls] for a in sig):
+                    return True
+    return False
+
+
 class Program:
     def __init__(self, sources, root='<memory>', reuse=None):
         self.root = root
@@ -1096,13 +1277,31 @@ class Program:
         self.funcs = {}
         self.classes = {}
         self.parse_errors = []
+        # renamed / moved functions and renamed fields get their known names back before anything else looks at the trees
+        pre = {}
+        try:
+            changed = [rp for rp in sorted(sources) if rp.endswith('.py') and
+                       not (reuse is not None and _modname(rp) in reuse.modules and reuse.modules[_modname(rp)].src == sources[rp])]
+            if reuse is None or changed:
+                trees = {rp: ast.parse(sources[rp], filename=rp) for rp in changed}
+                if _quick_has_unknown_or_vanished(trees):
+                    trees = {rp: trees[rp] if rp in trees else ast.parse(sources[rp], filename=rp) for rp in sorted(sources) if rp.endswith('.py')}
+                    if undo_renames(trees):
+                        pre = trees
+                        reuse = None
+                    else:
+                        pre = {rp: t for rp, t in trees.items() if rp in changed}
+                else:
+                    pre = trees
+        except SyntaxError as ex:
+            raise AnalysisError('cannot parse: %s' % (ex,))
         for relpath in sorted(sources):
             if not relpath.endswith('.py'):
                 continue
             name = _modname(relpath)
             try:
                 mod = Module(name, relpath, sources[relpath],
-                             reuse.modules.get(name) if reuse is not None else None)
+                             reuse.modules.get(name) if reuse is not None else None, tree=pre.get(relpath))
             except SyntaxError as ex:
                 raise AnalysisError('cannot parse %s: %s' % (relpath, ex))
             self.modules[name] = mod
